@@ -731,7 +731,9 @@ impl Run {
       let w = self.w[wid].clone();
       if self.possibly_expired(&w) && finished.is_none() {
         // invisible because expired; whether the cancelled call took it out is not observable: the model
-        // keeps it (reads of a possibly expired entry may return nothing)
+        // keeps it (reads of a possibly expired entry may return nothing); its Invalidated notification
+        // may or may not come
+        self.removed_maybe.push((*k, *wid));
         continue;
       }
       if !self.possibly_expired(&w) && !self.cfg.may_forget() {
